@@ -76,6 +76,13 @@ Proof.
   apply NW_app; [exact H1|]. apply NW_cons; [reflexivity|]. apply NW_cons; [reflexivity|]. apply NW_map. reflexivity.
 Qed.
 
+Lemma die_nw st : NW (die_ops st).
+Proof.
+  unfold die_ops. destruct (handles st) as [|g t]; [reflexivity|].
+  destruct (nth_error (ws st) g) as [w|]; [|reflexivity]. destruct (w_open w); [|reflexivity].
+  apply NW_cons; [reflexivity|]. apply NW_map. reflexivity.
+Qed.
+
 Lemma e2e_ops_nw blk st next o : NW (fst (e2e_ops L blk st next o)).
 Proof.
   destruct o; cbn [e2e_ops fst]; try (apply settled_nw; repeat (apply NW_cons; [reflexivity|]); reflexivity).
@@ -84,6 +91,7 @@ Proof.
   - apply settled_nw, NW_map. intros [|]; reflexivity.
   - apply settled_nw, kill_nw.
   - apply settled_nw. apply NW_app; [apply kill_nw|]. apply NW_cons; reflexivity.
+  - apply settled_nw, die_nw.
 Qed.
 
 Theorem e2e_script_nw : forall ops st next, NW (e2e_script L st next ops).
